@@ -12,6 +12,7 @@
  Rm memo          : every memoisation construct in the functions behind this property is keyed by everything it reads.
  Rp presence      : optional numeric fields are tested with `is None` / membership, never by truthiness (0 is a value).
  Rs sorted        : every numpy.interp abscissa is ascending by construction or by a recorded precondition.
+ R6 applied       : compute_nli's result reaches add_nli unchanged, and add_nli moves exactly that amount (shared with C01-R3).
 """
 import ast
 from fractions import Fraction
@@ -20,7 +21,7 @@ from ..model import AnchorMissing, CannotAnalyse, walk_no_nested
 from ..poly import Rat, C, mk_atom, fn, lem_abs, lem_odd, lem_cut, lem_exp, lem_log, subst, REG
 from ..vg import Evaluator, vkey, atoms_of, Const
 from ..domains import degree_in, sign, POS, NONNEG, ZERO
-from .common import site, key, calls_to
+from .common import site, key, calls_to, stmt_of
 
 SU = 'gnpy.core.science_utils'
 EXPLANATION = (
@@ -281,6 +282,27 @@ def rs_sorted(ctx):
     ctx.need('Rs.sorted-abscissa', 2)
 
 
+def r6_applied(ctx):
+    """R6: the NLI computed by the solver is what the spectrum receives: add_nli moves exactly nli from the channel power into
+    the NLI share (S' = S(1 - nli/p), A' likewise, N'p' = N p(1 - nli/p) + nli; shared with C01-R3) - no cap, floor or scaling
+    in between, which would break the cube law at high power"""
+    from .c01 import r3_step
+    r3_step(ctx)
+    repo = ctx.repo
+    for cn in ('Fiber', 'RamanFiber'):
+        f = repo.method(repo.cls(cn, 'gnpy.core.elements'), 'propagate')
+        an = calls_to(f, {'add_nli'})
+        cn_ = calls_to(f, {'compute_nli'})
+        ok = len(an) == 1 and len(cn_) == 1 and len(an[0].args) == 1
+        if ok:
+            a = an[0].args[0]
+            st = stmt_of(f, cn_[0])
+            ok = (a is cn_[0]) or (isinstance(a, ast.Name) and isinstance(st, ast.Assign) and st.value is cn_[0] and
+                                   ast.unparse(st.targets[0]) == a.id)
+        ctx.check('R6.applied', site(f), ok, key(f, 'applied'), f'{cn}.propagate does not hand the result of compute_nli unchanged to add_nli')
+    ctx.need('R6.applied', 2)
+
+
 from ..memo import rule_for as _memo_rule
 
 RULES_MEMO = ('Rm.memo', _memo_rule('C03', 'the NLI of another fibre configuration or spectrum would be applied'))
@@ -290,4 +312,4 @@ from ..presence import rule_for as _presence_rule
 
 RULES_PRESENCE = ('Rp.presence', _presence_rule('C03', 'a fibre given an explicit 0 would get the default model instead'))
 
-RULES = [('R5.order-independence', r5_sorted), ('R1.closed-form', r1_closed_form), ('R2.combination', r2_combination), ('R3.coefficients', r3_coefficients), RULES_MEMO, RULES_PRESENCE, ('Rs.sorted-abscissa', rs_sorted)]
+RULES = [('R5.order-independence', r5_sorted), ('R1.closed-form', r1_closed_form), ('R2.combination', r2_combination), ('R3.coefficients', r3_coefficients), RULES_MEMO, RULES_PRESENCE, ('Rs.sorted-abscissa', rs_sorted), ('R6.applied', r6_applied)]
